@@ -1,8 +1,315 @@
 package main
 
+import (
+	"fmt"
+	"go/ast"
+	"strings"
+)
+
+// ---------------------------------------------------------------------------------------------------------------
+// c13Script: the ordered "script" of a function that performs an output phase.
+//
+// For every call whose printed callee is one of `names` (exact text, so infile.Seek and outfile.Seek are distinct)
+// one entry (callee, kind, depth, cnd) is emitted in source order:
+//   callee  index into names
+//   kind    how the error result of the call is handled by the code around it
+//             0  ignored (expression statement, `_ = f()`, `_, _ = f()`)
+//             1  checked and propagated: `if err != nil { return ... }` directly after it, `if ..., err := f(); err != nil
+//                { return ... }`, `return f()`, or `err = f()` checked by the first statement after the enclosing if/else
+//             2  checked; the error block first calls <x>.Close() (explicit cleanup) and then returns
+//             3  checked by a block that does something else (its calls follow as entries under a fresh condition id)
+//             5  result bound to a variable that is not checked before the function goes on (treated as ignored)
+//             6  checked, but the block returns no error (`return x, nil`, or the function has no error result): the failure is
+//                turned into an ordinary result (getSize: -1 = size unknown)
+//             7  not a call: an assignment statement listed as "stmt:<text>" (its position matters, e.g. `f.File = nil`)
+//             9  the call is deferred (`defer x.Close()`)
+//   depth   number of enclosing for/range statements
+//   cnd     the enclosing plain if statements (not error checks), outermost first: 2*j for the then-branch and 2*j+1 for
+//           the else-branch of the j-th (1-based, source order) plain if of the function
+// Calls inside an error block of kind 1/2 are clean-up, not steps, and are not listed.
+// ---------------------------------------------------------------------------------------------------------------
+
+type c13Entry struct {
+	callee, kind, depth int
+	cnd                 []int
+	text                string
+}
+
+type c13Walker struct {
+	p       *pkgInfo
+	names   []string
+	entries []c13Entry
+	ifID    int
+	noError bool // the function has no result of type error: a `return` in an error block cannot propagate the error
+}
+
+func (w *c13Walker) match(e ast.Expr) int {
+	ce, ok := e.(*ast.CallExpr)
+	if !ok {
+		return -1
+	}
+	callee := printNode(w.p.fset, ce.Fun)
+	for i, n := range w.names {
+		if callee == n {
+			return i
+		}
+	}
+	return -1
+}
+
+// a name "stmt:<text>" lists the assignment statement with exactly that printed text (kind 7: a statement, not a call)
+func (w *c13Walker) matchStmt(s ast.Stmt) int {
+	txt := strings.Join(strings.Fields(printNode(w.p.fset, s)), " ")
+	for i, n := range w.names {
+		if strings.HasPrefix(n, "stmt:") && n[5:] == txt {
+			return i
+		}
+	}
+	return -1
+}
+
+func (w *c13Walker) isErrCheck(is *ast.IfStmt) bool {
+	return strings.Contains(printNode(w.p.fset, is.Cond), "err != nil")
+}
+
+// classifyBlock: kind of an `if err != nil {...}` block
+func (w *c13Walker) classifyBlock(is *ast.IfStmt) int {
+	hasClose, hasReturn, other := false, false, false
+	for _, b := range is.Body.List {
+		switch x := b.(type) {
+		case *ast.ReturnStmt:
+			hasReturn = true
+		case *ast.ExprStmt:
+			if ce, ok := x.X.(*ast.CallExpr); ok && strings.HasSuffix(printNode(w.p.fset, ce.Fun), ".Close") {
+				hasClose = true
+			} else {
+				other = true
+			}
+		default:
+			other = true
+		}
+	}
+	lastRet, lastIsReturn := is.Body.List[len(is.Body.List)-1].(*ast.ReturnStmt)
+	// `return x, nil` inside an error block: the failure is turned into an ordinary result, not propagated
+	returnsNil := lastIsReturn && len(lastRet.Results) > 0 && printNode(w.p.fset, lastRet.Results[len(lastRet.Results)-1]) == "nil"
+	switch {
+	case other || !hasReturn || !lastIsReturn:
+		return 3
+	case w.noError || returnsNil:
+		return 6
+	case hasClose:
+		return 2
+	default:
+		return 1
+	}
+}
+
+func allBlank(lhs []ast.Expr) bool {
+	for _, l := range lhs {
+		if id, ok := l.(*ast.Ident); !ok || id.Name != "_" {
+			return false
+		}
+	}
+	return true
+}
+
+func (w *c13Walker) add(callee, kind, depth int, cnd []int, n ast.Node) {
+	w.entries = append(w.entries, c13Entry{callee, kind, depth, append([]int{}, cnd...), strings.Join(strings.Fields(printNode(w.p.fset, n)), " ")})
+}
+
+// walk a statement list; follow = the statements after the enclosing statement (used for `err = f()` checked later)
+func (w *c13Walker) walk(list []ast.Stmt, follow []ast.Stmt, depth int, cnd []int) {
+	for idx := 0; idx < len(list); idx++ {
+		s := list[idx]
+		rest := list[idx+1:]
+		next := rest
+		if len(next) == 0 {
+			next = follow
+		}
+		switch x := s.(type) {
+		case *ast.ExprStmt:
+			if c := w.match(x.X); c >= 0 {
+				w.add(c, 0, depth, cnd, x.X)
+			}
+		case *ast.DeferStmt:
+			if c := w.match(x.Call); c >= 0 {
+				w.add(c, 9, depth, cnd, x.Call)
+			}
+		case *ast.AssignStmt:
+			if c := w.matchStmt(x); c >= 0 {
+				w.add(c, 7, depth, cnd, x)
+				continue
+			}
+			if len(x.Rhs) != 1 {
+				continue
+			}
+			c := w.match(x.Rhs[0])
+			if c < 0 {
+				continue
+			}
+			if allBlank(x.Lhs) {
+				w.add(c, 0, depth, cnd, x.Rhs[0])
+				continue
+			}
+			kind := 5
+			var chk *ast.IfStmt
+			if len(next) > 0 {
+				if is, ok := next[0].(*ast.IfStmt); ok && is.Init == nil && w.isErrCheck(is) {
+					kind = w.classifyBlock(is)
+					chk = is
+				}
+			}
+			w.add(c, kind, depth, cnd, x.Rhs[0])
+			if chk != nil && len(rest) > 0 {
+				idx++ // the check directly follows in this list: consumed
+				if kind == 3 {
+					w.ifID++
+					w.walk(chk.Body.List, rest[1:], depth, append(append([]int{}, cnd...), 2*w.ifID))
+				}
+			}
+		case *ast.IfStmt:
+			if as, ok := x.Init.(*ast.AssignStmt); ok && len(as.Rhs) == 1 && w.match(as.Rhs[0]) >= 0 {
+				c := w.match(as.Rhs[0])
+				if w.isErrCheck(x) {
+					kind := w.classifyBlock(x)
+					w.add(c, kind, depth, cnd, as.Rhs[0])
+					if kind == 3 {
+						w.ifID++
+						w.walk(x.Body.List, next, depth, append(append([]int{}, cnd...), 2*w.ifID))
+					}
+				} else {
+					w.add(c, 5, depth, cnd, as.Rhs[0])
+				}
+				continue
+			}
+			if x.Init == nil && w.isErrCheck(x) {
+				// an error check whose call is not a listed one (or was listed by the assignment before it)
+				continue
+			}
+			w.ifID++
+			id := w.ifID
+			w.walk(x.Body.List, next, depth, append(append([]int{}, cnd...), 2*id))
+			switch e := x.Else.(type) {
+			case *ast.BlockStmt:
+				w.walk(e.List, next, depth, append(append([]int{}, cnd...), 2*id+1))
+			case *ast.IfStmt:
+				w.walk([]ast.Stmt{e}, next, depth, append(append([]int{}, cnd...), 2*id+1))
+			}
+		case *ast.ForStmt:
+			w.walk(x.Body.List, nil, depth+1, cnd)
+		case *ast.RangeStmt:
+			w.walk(x.Body.List, nil, depth+1, cnd)
+		case *ast.BlockStmt:
+			w.walk(x.List, next, depth, cnd)
+		case *ast.ReturnStmt:
+			for _, r := range x.Results {
+				if c := w.match(r); c >= 0 {
+					w.add(c, 1, depth, cnd, r)
+				}
+			}
+		}
+	}
+}
+
+func (o *out) c13Script(dir, recv, name, coqName string, names []string) {
+	p, fd := findFunc(dir, recv, name)
+	if fd == nil {
+		o.brokenDef(coqName, "function "+dir+":"+recv+"."+name+" not found")
+		return
+	}
+	w := &c13Walker{p: p, names: names, noError: true}
+	if fd.Type.Results != nil {
+		for _, r := range fd.Type.Results.List {
+			if id, ok := r.Type.(*ast.Ident); ok && id.Name == "error" {
+				w.noError = false
+			}
+		}
+	}
+	w.walk(fd.Body.List, nil, 0, nil)
+	var parts, descr []string
+	for _, e := range w.entries {
+		var cs []string
+		for _, c := range e.cnd {
+			cs = append(cs, fmt.Sprint(c))
+		}
+		parts = append(parts, fmt.Sprintf("(%d, %d, %d, [%s])", e.callee, e.kind, e.depth, strings.Join(cs, "; ")))
+		descr = append(descr, fmt.Sprintf("%s/%d", w.names[e.callee], e.kind))
+	}
+	if len(parts) == 0 {
+		o.brokenDef(coqName, "no listed call found in "+dir+":"+recv+"."+name)
+		return
+	}
+	o.f("Definition %s : list (Z * Z * Z * list Z) :=\n  [%s].\n(* %s:%s.%s script: %s ; callee index into [%s] *)\n", coqName, strings.Join(parts, ";\n   "), dir, recv, name,
+		strings.Join(descr, " "), strings.Join(names, " "))
+}
+
+// c13CallArg: is the printed n-th argument of the first call to `callee` in the function exactly `want`?
+func (o *out) c13CallArg(dir, recv, name, callee string, n int, want, coqName string) {
+	p, fd := findFunc(dir, recv, name)
+	if fd == nil {
+		o.brokenDef(coqName, "function "+dir+":"+recv+"."+name+" not found")
+		return
+	}
+	got, found := "", false
+	ast.Inspect(fd.Body, func(nd ast.Node) bool {
+		if ce, ok := nd.(*ast.CallExpr); ok && !found && printNode(p.fset, ce.Fun) == callee && len(ce.Args) > n {
+			got, found = strings.Join(strings.Fields(printNode(p.fset, ce.Args[n])), ""), true
+		}
+		return !found
+	})
+	if !found {
+		o.brokenDef(coqName, "no call to "+callee+" in "+name)
+		return
+	}
+	o.f("Definition %s : bool := %v. (* %s:%s.%s : argument %d of %s is `%s` *)\n", coqName, got == strings.Join(strings.Fields(want), ""), dir, recv, name, n, callee, got)
+}
+
+// c13Decision: decisionFunc for bodies that contain `if x, err := f(); cond {` (the init statement is dropped; the
+// condition's leaves are supplied by the caller) — the statement list is translated by the shared translator.
+func (o *out) c13Decision(fs funcSpec) {
+	p, fd := findFunc(fs.dir, fs.recv, fs.name)
+	if fd == nil {
+		o.brokenDef(fs.coqName, "function "+fs.dir+":"+fs.recv+"."+fs.name+" not found")
+		return
+	}
+	var strip func(list []ast.Stmt) []ast.Stmt
+	strip = func(list []ast.Stmt) []ast.Stmt {
+		var outl []ast.Stmt
+		for _, s := range list {
+			if is, ok := s.(*ast.IfStmt); ok {
+				cp := *is
+				cp.Init = nil
+				body := *is.Body
+				body.List = strip(is.Body.List)
+				cp.Body = &body
+				if eb, ok := is.Else.(*ast.BlockStmt); ok {
+					e2 := *eb
+					e2.List = strip(eb.List)
+					cp.Else = &e2
+				}
+				outl = append(outl, &cp)
+			} else {
+				outl = append(outl, s)
+			}
+		}
+		return outl
+	}
+	t := o.newTr(p, fs)
+	body := t.stmts(strip(fd.Body.List), "")
+	if t.err != nil {
+		o.brokenDef(fs.coqName, t.err.Error())
+		return
+	}
+	o.f("Definition %s %s : %s :=\n  %s.\n(* from %s:%s.%s *)\n", fs.coqName, fs.params, fs.retType, body, fs.dir, fs.recv, fs.name)
+}
+
 func init() {
 	generators["C13_gen"] = func(o *out) {
 		const a = "lib/atomicfile"
+		const bp = "lib/binpatch"
+		// the model is the POSIX build: hasLinks exists twice (fileutil_unix.go / fileutil_windows.go) and the shared loader
+		// ignores build constraints, so drop the Windows file from the parsed package
+		delete(loadPkg(bp).files, "fileutil_windows.go")
 		// index into [Chmod Close Remove Rename]
 		o.callOrder(a, "atomicFile", "Commit", "commit_calls", []string{"Chmod", "Close", "Remove", "Rename"})
 		// index into [Close Remove]
@@ -11,7 +318,7 @@ func init() {
 		o.callOrder(a, "", "WriteInPlace", "writeinplace_calls", []string{"New", "Seek", "Copy", "Close"})
 		o.hasStmt(a, "", "WriteFile", "defer f.Close()", "writefile_defers_close")
 		o.hasStmt("signers", "fileProducer", "Apply", "defer f.Close()", "apply_defers_close")
-		o.hasStmt("lib/binpatch", "PatchSet", "applyRewrite", "defer outfile.Close()", "rewrite_defers_close")
+		o.hasStmt(bp, "PatchSet", "applyRewrite", "defer outfile.Close()", "rewrite_defers_close")
 		o.hasStmt("signers/msi", "msiTransformer", "Apply", "defer f.Close()", "msi_defers_close")
 		o.hasStmt("signers/pgp", "pgpTransformer", "Apply", "defer outfile.Close()", "pgp_defers_close")
 		// is the fallback remove-then-rename guarded (only reached when the first rename failed)?
@@ -19,8 +326,133 @@ func init() {
 			params: "(is_windows : bool)", retType: "bool",
 			leaves: map[string]string{`runtime.GOOS != "windows"`: "(negb is_windows)"},
 			types:  map[string]string{`runtime.GOOS != "windows"`: "bool"}}, "runtime.GOOS")
+
+		// ------------------------------------------------------------------ scripts of the output strategies
+		o.f("\n(* ---- scripts: (callee, error handling kind, loop depth, enclosing plain-if branches); see gen_c13.go ---- *)\n")
+		o.c13Script(a, "atomicFile", "Commit", "commit_script", []string{"f.File.Chmod", "f.File.Close", "os.Remove", "os.Rename", "stmt:f.File = nil"})
+		o.c13Script(a, "atomicFile", "Close", "close_script", []string{"f.File.Close", "os.Remove"})
+		o.c13Script(a, "", "New", "new_script", []string{"ioutil.TempFile"})
+		o.c13Script(a, "", "WriteFile", "writefile_script", []string{"WriteAny", "f.Close", "f.Write", "f.Commit"})
+		o.c13Script(a, "", "WriteInPlace", "writeinplace_script", []string{"New", "src.Seek", "io.Copy", "outfile.Seek", "src.Close"})
+		o.c13Script("signers", "fileProducer", "Apply", "whole_script",
+			[]string{"atomicfile.WriteAny", "f.Close", "io.Copy", "p.f.Close", "f.Commit", "ApplyBinPatch"})
+		o.c13Script(bp, "PatchSet", "applyRewrite", "rewrite_script",
+			[]string{"infile.Seek", "atomicfile.New", "outfile.Close", "io.CopyN", "outfile.Write", "io.Copy", "infile.Close", "outfile.Commit", "errors.New"})
+		o.c13Script("signers/msi", "msiTransformer", "Apply", "msi_script",
+			[]string{"t.cdf.Close", "ioutil.ReadAll", "atomicfile.WriteInPlace", "f.Close", "comdoc.WriteFile", "authenticode.InsertMSISignature", "cdf.Close", "f.Commit"})
+		o.c13Script("signers/pgp", "pgpTransformer", "Apply", "pgp_script",
+			[]string{"atomicfile.WriteAny", "outfile.Close", "t.stream.Seek", "ioutil.ReadAll", "pgptools.MergeClearSign", "pgptools.MergeSignature", "io.Copy", "t.closer.Close", "outfile.Commit"})
+		// pgptools.MergeClearSign writes through a bufio.Writer; is the error of its final Flush returned or dropped (deferred)?
+		o.c13Script("lib/pgptools", "", "MergeClearSign", "mergeclearsign_script", []string{"out.Flush", "out.Write", "ClearSign", "headClearSign"})
+		o.c13Script("lib/pgptools", "", "MergeSignature", "mergesignature_script", []string{"writeOnePass", "serializeLiteral", "io.Copy", "litWriter.Close", "armorer.Write", "armorer.Close"})
+		// the command line runs the module's Fixup (pe-coff: FixPEChecksum) on the destination AFTER Apply has committed it
+		o.callOrder("cmdline/token", "", "signCmd", "token_sign_calls", []string{"Apply", "OpenFile", "Fixup"})
+		o.callOrder("cmdline/remotecmd", "", "signCmd", "remote_sign_calls", []string{"Apply", "OpenFile", "Fixup"})
+		o.c13Script("lib/authenticode", "", "FixPEChecksum", "fixpe_script", []string{"f.Seek", "readDosHeader", "io.Copy", "f.WriteAt"})
+		// MergeSignature with armor: go-crypto's armor encoder drops the error of its last line; relic remembers write errors itself
+		o.hasStmt("lib/pgptools", "", "MergeSignature", "sticky := &stickyWriter{w: w}", "armor_errors_sticky")
+		o.c13CallArg("lib/pgptools", "", "MergeSignature", "armor.Encode", 0, "sticky", "armor_writes_through_sticky")
+		// pgptools.getSize (used by MergeSignature): three Seeks on the input, a failure means "size unknown", not an error
+		o.c13Script("lib/pgptools", "", "getSize", "getsize_script", []string{"seek.Seek"})
+		// binpatch.Apply: every fallback is applyRewrite; the in-place branch is WriteAt per patch, then Truncate
+		o.callOrder(bp, "PatchSet", "Apply", "apply_calls", []string{"Stat", "Lstat", "applyRewrite", "WriteAt", "Truncate"})
+		o.c13Script(bp, "PatchSet", "Apply", "apply_inplace_script", []string{"infile.WriteAt", "infile.Truncate"})
+
+		// ------------------------------------------------------------------ decisions
+		o.f("\n(* ---- decisions ---- *)\n")
+		// WriteAny: 0 = stdout (no file), 1 = direct write to a special file, 2 = write-rename
+		o.c13Decision(funcSpec{dir: a, recv: "", name: "WriteAny", coqName: "writeany_choice",
+			params: "(path_is_dash is_special : bool)", retType: "(Z * Z)",
+			leaves: map[string]string{`path == "-"`: "path_is_dash", "isSpecial(path)": "is_special",
+				"nopAtomic{os.Stdout, false}": "0", "nopAtomic{f, true}": "1", "New(path)": "(2, 0)", "nil": "0", "err": "0"},
+			types:  map[string]string{`path == "-"`: "bool", "isSpecial(path)": "bool"},
+			ignore: []string{"os.Create(path)"}})
+		o.c13Decision(funcSpec{dir: a, recv: "", name: "isSpecial", coqName: "is_special",
+			params: "(stat_ok is_regular : bool)", retType: "bool",
+			leaves: map[string]string{"err == nil": "stat_ok", "stat.Mode().IsRegular()": "is_regular"},
+			types:  map[string]string{"err == nil": "bool", "stat.Mode().IsRegular()": "bool"}})
+		o.c13CallArg(a, "", "isSpecial", "os.Stat", 0, "path", "is_special_follows_links") // os.Stat (follows links), not Lstat
+		// nopAtomic.Commit closes only when doClose
+		o.decisionFunc(funcSpec{dir: a, recv: "nopAtomic", name: "Commit", coqName: "nop_commit_closes",
+			params: "(do_close : bool)", retType: "bool",
+			leaves: map[string]string{"a.doClose": "do_close", "a.Close()": "true", "nil": "false"},
+			types:  map[string]string{"a.doClose": "bool"}})
+		// WriteInPlace edits the source itself iff the two names are the same string
+		o.condOf(funcSpec{dir: a, recv: "", name: "WriteInPlace", coqName: "wip_same_name",
+			params: "(src_name dest : bytes)", retType: "bool",
+			leaves: map[string]string{"src.Name()": "src_name", "dest": "dest"},
+			types:  map[string]string{"src.Name()": "str", "dest": "str"}}, "src.Name()")
+		// atomicFile.Close / Commit on an already closed object
+		o.condOf(funcSpec{dir: a, recv: "atomicFile", name: "Close", coqName: "close_is_noop",
+			params: "(file_is_nil : bool)", retType: "bool",
+			leaves: map[string]string{"f.File == nil": "file_is_nil"}, types: map[string]string{"f.File == nil": "bool"}}, "f.File")
+		o.hasStmt(a, "atomicFile", "Commit", "f.File = nil", "commit_disarms")
+		o.hasStmt(a, "atomicFile", "Close", "f.File = nil", "close_disarms")
+		// the temporary is created in the destination's directory under <base>.tmp*
+		o.c13CallArg(a, "", "New", "ioutil.TempFile", 0, "filepath.Dir(name)", "temp_in_dest_dir")
+		o.c13CallArg(a, "", "New", "ioutil.TempFile", 1, `filepath.Base(name) + ".tmp"`, "temp_prefix_base_tmp")
+		o.c13CallArg(a, "atomicFile", "Commit", "os.Rename", 0, "f.File.Name()", "commit_renames_temp")
+		o.c13CallArg(a, "atomicFile", "Commit", "os.Rename", 1, "f.name", "commit_renames_to_dest")
+		o.c13CallArg(a, "atomicFile", "Close", "os.Remove", 0, "f.File.Name()", "close_removes_temp")
+		// fileProducer.Apply: patch or whole file
+		o.condOf(funcSpec{dir: "signers", recv: "fileProducer", name: "Apply", coqName: "apply_is_patch",
+			params: "(mimetype mime_binpatch : bytes)", retType: "bool",
+			leaves: map[string]string{"mimetype": "mimetype", "binpatch.MimeType": "mime_binpatch"},
+			types:  map[string]string{"mimetype": "str", "binpatch.MimeType": "str"}}, "mimetype")
+		// pgp: merge or plain copy
+		o.condOf(funcSpec{dir: "signers/pgp", recv: "pgpTransformer", name: "Apply", coqName: "pgp_merges",
+			params: "(inline clearsign : bool)", retType: "bool",
+			leaves: map[string]string{"t.inline": "inline", "t.clearsign": "clearsign"},
+			types:  map[string]string{"t.inline": "bool", "t.clearsign": "bool"}}, "t.inline")
+		o.condOf(funcSpec{dir: "signers/pgp", recv: "pgpTransformer", name: "Apply", coqName: "pgp_merge_clearsign",
+			params: "(clearsign : bool)", retType: "bool",
+			leaves: map[string]string{"t.clearsign": "clearsign"}, types: map[string]string{"t.clearsign": "bool"}}, "if:t.clearsign", 1)
+
+		// binpatch.Apply: when is the input overwritten in place?
+		apLeaves := map[string]string{
+			"patch.OldSize": "p_old", "patch.NewSize": "p_new", "patch.Offset": "p_off",
+			"i": "i", "len(p.Patches)": "n", "oldEnd": "old_end", "ininfo.Size()": "in_size",
+			"err != nil": "lstat_fails", "canOverwrite(ininfo, outinfo)": "can_ow", "canWrite(infile)": "can_write",
+		}
+		apTypes := map[string]string{"err != nil": "bool", "canOverwrite(ininfo, outinfo)": "bool", "canWrite(infile)": "bool"}
+		o.condOf(funcSpec{dir: bp, recv: "PatchSet", name: "Apply", coqName: "apply_fallback_first",
+			params: "(lstat_fails can_ow can_write : bool)", retType: "bool", leaves: apLeaves, types: apTypes}, "canOverwrite")
+		o.condOf(funcSpec{dir: bp, recv: "PatchSet", name: "Apply", coqName: "apply_same_size",
+			params: "(p_old p_new : Z)", retType: "bool", leaves: apLeaves}, "patch.NewSize")
+		o.condOf(funcSpec{dir: bp, recv: "PatchSet", name: "Apply", coqName: "apply_not_last",
+			params: "(i n : Z)", retType: "bool", leaves: apLeaves}, "len(p.Patches)")
+		o.exprOfAssign(funcSpec{dir: bp, recv: "PatchSet", name: "Apply", coqName: "apply_old_end",
+			params: "(p_off p_old : Z)", retType: "Z", leaves: apLeaves}, "oldEnd", 0)
+		o.condOf(funcSpec{dir: bp, recv: "PatchSet", name: "Apply", coqName: "apply_not_at_eof",
+			params: "(old_end in_size : Z)", retType: "bool", leaves: apLeaves}, "oldEnd")
+		o.exprOfAssign(funcSpec{dir: bp, recv: "PatchSet", name: "Apply", coqName: "apply_new_size",
+			params: "(p_off p_new : Z)", retType: "Z", leaves: apLeaves}, "size", 1)
+		o.c13CallArg(bp, "PatchSet", "Apply", "os.Lstat", 0, "outpath", "apply_lstats_outpath") // Lstat: a symbolic link is not a regular file
+		o.decisionFunc(funcSpec{dir: bp, recv: "", name: "canOverwrite", coqName: "can_overwrite",
+			params: "(is_regular same_file has_links : bool)", retType: "bool",
+			leaves: map[string]string{"outinfo.Mode().IsRegular()": "is_regular",
+				"os.SameFile(ininfo, outinfo)": "same_file", "hasLinks(outinfo)": "has_links"},
+			types: map[string]string{"outinfo.Mode().IsRegular()": "bool", "os.SameFile(ininfo, outinfo)": "bool", "hasLinks(outinfo)": "bool"}})
+		o.decisionFunc(funcSpec{dir: bp, recv: "", name: "hasLinks", coqName: "has_links",
+			params: "(sys_ok : bool) (nlink : Z)", retType: "bool",
+			leaves: map[string]string{"ok": "sys_ok", "stat.Nlink": "nlink"}, types: map[string]string{"ok": "bool"},
+			ignore: []string{"info.Sys()"}})
+		rwLeaves := map[string]string{"delta": "delta"}
+		o.condOf(funcSpec{dir: bp, recv: "PatchSet", name: "applyRewrite", coqName: "rewrite_out_of_order",
+			params: "(delta : Z)", retType: "bool", leaves: rwLeaves}, "delta", 0)
+		o.condOf(funcSpec{dir: bp, recv: "PatchSet", name: "applyRewrite", coqName: "rewrite_copy_before",
+			params: "(delta : Z)", retType: "bool", leaves: rwLeaves}, "delta", 1)
+		o.exprOfAssign(funcSpec{dir: bp, recv: "PatchSet", name: "applyRewrite", coqName: "rewrite_delta",
+			params: "(p_off pos : Z)", retType: "Z", leaves: map[string]string{"patch.Offset": "p_off", "pos": "pos"}}, "delta", 0)
+		o.exprOfAssign(funcSpec{dir: bp, recv: "PatchSet", name: "applyRewrite", coqName: "rewrite_skip",
+			params: "(p_old : Z)", retType: "Z", leaves: map[string]string{"patch.OldSize": "p_old"}}, "delta", 1)
+
 		for _, fn := range [][3]string{{a, "atomicFile", "Commit"}, {a, "atomicFile", "Close"}, {a, "", "New"}, {a, "", "WriteInPlace"}, {a, "", "WriteAny"}, {a, "", "WriteFile"},
-			{"signers", "fileProducer", "Apply"}, {"lib/binpatch", "PatchSet", "applyRewrite"}, {"signers/msi", "msiTransformer", "Apply"}, {"signers/pgp", "pgpTransformer", "Apply"}} {
+			{a, "", "isSpecial"}, {a, "nopAtomic", "Commit"},
+			{"signers", "fileProducer", "Apply"}, {bp, "PatchSet", "applyRewrite"}, {bp, "PatchSet", "Apply"}, {bp, "", "canOverwrite"},
+			{"signers/msi", "msiTransformer", "Apply"}, {"signers/pgp", "pgpTransformer", "Apply"},
+			{"lib/pgptools", "", "MergeClearSign"}, {"lib/pgptools", "", "MergeSignature"}, {"lib/pgptools", "", "getSize"},
+			{"cmdline/token", "", "signCmd"}, {"cmdline/remotecmd", "", "signCmd"}, {"lib/authenticode", "", "FixPEChecksum"}} {
 			fingerprint(fn[0], fn[1], fn[2])
 		}
 	}
